@@ -211,6 +211,7 @@ Proof. exact (apply2_mismatched_column_types ut f fn dst s1 s2 c1 c2). Qed.
 Print Assumptions C10_apply2_mismatched_column_types.
 Theorem C10_apply_illegal_name ut f k dst :
   ferr f = false -> check_name dst = false -> (forall s, k <> CEnum s) ->
+  (length (ix f) = phys_len f \/ Forall (fun p => p < phys_len f) (ix f)) ->
   exists g, apply_instr ut f (mkInstr (F0Const k) dst [] []) = Ok g /\ ferr g = true.
 Proof. exact (apply_illegal_name ut f k dst). Qed.
 Print Assumptions C10_apply_illegal_name.
